@@ -133,7 +133,8 @@ class C19(Check):
                     return r[1]
 
                 def on_error(e):
-                    x = e.args[0]
+                    # the handler is only ever meant to see the processor's exception
+                    x = e.args[0] if isinstance(e, ProcError) else -777
                     log.append([i, 2, x])
                     if s["h"][0] == "raise":
                         raise ValueError("handler")
@@ -204,6 +205,15 @@ class C19(Check):
             if cb == 1 and stages[i]["c"] is not None:
                 if ev_gate(stages[i]["c"], x) != "GPass" or [i, 0, x] not in log[:k]:
                     return Violation("C19/gate-fail-open", f"stage {i} processed signal {x} although its checkpoint did not return true for it")
+        # a stage with a checkpoint completes only behind a gate that passed; the error handler is for the processor
+        for k, (i, cb, x) in enumerate(log):
+            if cb == 2 and x == -777:
+                return Violation("C19/gate-fail-open", f"stage {i}: the checkpoint's exception was handed to on_error (the gate raised, the stage must not run or be recovered)")
+        for (i, st, _f) in trace["sres"]:
+            if st == 0 and stages[i]["c"] is not None:
+                checks = [e for e in log if e[0] == i and e[1] == 0]
+                if not checks or ev_gate(stages[i]["c"], checks[-1][2]) != "GPass":
+                    return Violation("C19/gate-fail-open", f"stage {i} is reported COMPLETED although its checkpoint did not return true")
         # halted pipelines run nothing further
         if case["halt"]:
             for (i, st, _f) in trace["sres"]:
